@@ -33,6 +33,9 @@ type CaseA struct {
 	Src    string   `json:"src"`
 	Src2   string   `json:"src2,omitempty"` // a second, different file handled in the same case
 	Feat   []string `json:"feat,omitempty"`
+	// Reuse: what the caller does with each []byte it passed to a parsing entry point
+	// after the call returned ("" = nothing; see common_test.go)
+	Reuse string `json:"reuse,omitempty"`
 }
 
 func genSource(t *rapid.T) (string, string, []string) {
@@ -66,7 +69,8 @@ func genSource(t *rapid.T) (string, string, []string) {
 func genA(t *rapid.T) CaseA {
 	src, origin, feat := genSource(t)
 	c := CaseA{Origin: origin, Src: src, Feat: feat}
-	if rapid.IntRange(0, 3).Draw(t, "second-file") > 0 {
+	c.Reuse = genReuse(t)
+	if rapid.IntRange(0, 3).Draw(t, "second-file") > 0 || c.Reuse == reuseOther || c.Reuse == reuseNext {
 		c.Src2, _, _ = genSource(t)
 	}
 	return c
@@ -76,15 +80,20 @@ func genA(t *rapid.T) CaseA {
 // after all files of the case have been serialised.
 type stateA struct {
 	text   string
-	src    []byte
+	reuse  string
+	other  string
 	toks   []tk
 	parsed *hcl.File
+	file   *hclwrite.File
 	fm     []byte
 }
 
 // loadA: P1 for one source; nil state when the source is outside the property.
-func loadA(text string, k *keeper) (*stateA, *core.Violation) {
-	src := []byte(text)
+func loadA(text, reuse, other string, k *keeper) (*stateA, *core.Violation) {
+	// the caller's buffer; all oracles below are computed from text / from the scanner's
+	// tokens (string copies) before the buffer is used again
+	cb := newCallerBuf(reuse, text, other, reuseFallbackConfig)
+	src := cb.b
 	parsed, pd := hclsyntax.ParseConfig(src, "", startPos)
 	if pd.HasErrors() {
 		// \uNNNN / \UNNNNNNNN are not escapes of this dialect: the yaotl scanner has \xHH in their place
@@ -118,6 +127,15 @@ func loadA(text string, k *keeper) (*stateA, *core.Violation) {
 	if diags.HasErrors() || f == nil {
 		return nil, core.V("P1|valid-source-rejected", "hclsyntax.ParseConfig accepts the source, hclwrite.ParseConfig reports: %s\n%s", diags.Error(), clip(text, 3000))
 	}
+	// both parsers have returned: the caller uses its buffer for what comes next; the
+	// writer file and the native tree are looked at only after that
+	cb.reuse(func(next []byte) {
+		hclsyntax.ParseConfig(next, "", startPos)
+		if nf, _ := hclwrite.ParseConfig(next, "", startPos); nf != nil {
+			k.keep("Tokens.Bytes", nf.BuildTokens(nil).Bytes())
+		}
+	})
+	src = nil
 	got := k.keep("Tokens.Bytes", f.BuildTokens(nil).Bytes())
 	if !bytes.Equal(got, want.Bytes()) {
 		i := 0
@@ -137,7 +155,9 @@ func loadA(text string, k *keeper) (*stateA, *core.Violation) {
 		return nil, core.V("P1|roundtrip|"+kind, "token stream of the parsed tree differs from the source at byte %d (len %d vs %d)\nwant ...%q\ngot  ...%q\nsource:\n%s", i, want.Len(), len(got), clip(string(want.Bytes()[lo:]), 160), clip(string(got[lo:]), 160), clip(text, 3000))
 	}
 
-	fm := k.keep("Format", hclwrite.Format(src))
+	fin := newCallerBuf(reuse, text, other, reuseFallbackConfig)
+	fm := k.keep("Format", hclwrite.Format(fin.b))
+	fin.reuse(func(next []byte) { k.keep("Format", hclwrite.Format(next)) })
 	if fb := k.keep("File.Bytes", f.Bytes()); !bytes.Equal(fb, fm) {
 		return nil, core.V("P1|File.Bytes-vs-Format", "File.Bytes() of the parsed file differs from Format(src)\nBytes():\n%s\nFormat():\n%s", clip(string(fb), 2000), clip(string(fm), 2000))
 	}
@@ -160,13 +180,17 @@ func loadA(text string, k *keeper) (*stateA, *core.Violation) {
 			k.keep("Traversal.BuildTokens.Bytes", vs[0].BuildTokens(nil).Bytes())
 		}
 	}
-	return &stateA{text: text, src: src, toks: toks, parsed: parsed, fm: fm}, nil
+	return &stateA{text: text, reuse: reuse, other: other, toks: toks, parsed: parsed, file: f, fm: fm}, nil
 }
 
 // formatA: P2, on the retained result of Format.
 func formatA(st *stateA, k *keeper) *core.Violation {
-	text, src, toks, parsed, fm := st.text, st.src, st.toks, st.parsed, st.fm
-	_ = src
+	text, toks, parsed, fm := st.text, st.toks, st.parsed, st.fm
+	// the writer file loaded in the first phase is still held: it serialises to the same
+	// bytes after everything that happened since (other files loaded, buffers reused)
+	if fb := k.keep("File.Bytes", st.file.Bytes()); !bytes.Equal(fb, fm) {
+		return core.V("P1|File.Bytes-vs-Format|file-held-across-later-calls", "File.Bytes() of a file that was loaded earlier in the case no longer equals Format(src)\nBytes():\n%s\nFormat():\n%s\nsource:\n%s", clip(string(fb), 2000), clip(string(fm), 2000), clip(text, 2000))
+	}
 	// ---- P2
 	ftoks, fok := lex(fm)
 	if !fok {
@@ -195,7 +219,13 @@ func formatA(st *stateA, k *keeper) *core.Violation {
 		}
 		return core.V("P2|format|not-idempotent", "Format(Format(src)) != Format(src), first difference at byte %d\nonce:\n%s\ntwice:\n%s\nsource:\n%s", i, clip(string(fm), 1500), clip(string(fm2), 1500), clip(text, 1500))
 	}
-	fparsed, fd := hclsyntax.ParseConfig(fm, "", startPos)
+	// fm is a retained result of the library; the parser gets the caller's own copy of it
+	pin := &callerBuf{b: fm}
+	if st.reuse != reuseNone {
+		pin = newCallerBuf(st.reuse, string(fm), st.other, reuseFallbackConfig)
+	}
+	fparsed, fd := hclsyntax.ParseConfig(pin.b, "", startPos)
+	pin.reuse(func(next []byte) { hclsyntax.ParseConfig(next, "", startPos) })
 	if fd.HasErrors() {
 		return core.V("P2|format|output-does-not-parse", "formatted text has errors: %s\n%s\nsource:\n%s", fd.Error(), clip(string(fm), 2000), clip(text, 2000))
 	}
@@ -224,11 +254,11 @@ func formatA(st *stateA, k *keeper) *core.Violation {
 func checkA(c CaseA) *core.Violation {
 	k := newKeeper()
 	var states []*stateA
-	for _, text := range []string{c.Src, c.Src2} {
+	for i, text := range []string{c.Src, c.Src2} {
 		if text == "" && len(states) > 0 {
 			continue
 		}
-		st, v := loadA(text, k)
+		st, v := loadA(text, c.Reuse, []string{c.Src2, c.Src}[i], k)
 		if v != nil {
 			return k.finish(v)
 		}
@@ -336,7 +366,7 @@ func classifyA(c CaseA) core.Class {
 		cl.Fingerprint = "invalid"
 		return cl
 	}
-	cl.Labels = append(cl.Labels, "source:valid")
+	cl.Labels = append(cl.Labels, "source:valid", reuseLabel(c.Reuse))
 	if c.Src2 != "" && c.Src2 != c.Src {
 		cl.Labels = append(cl.Labels, "results:two-different-files-serialised")
 	} else {
